@@ -341,7 +341,9 @@ func histCampaign(prop, tier string, seed uint64, scratch string) *Result {
 		seed uint64
 	}
 	var firstRuns []second
-	parallel(n, workers, func(i int) {
+	corpus := corpusSeeds(prop)
+	res.Stats["corpus-cases"] = len(corpus)
+	parallel(n+len(corpus), workers, func(i int) {
 		cs := seed*1000003 + uint64(i)*7919 + 1
 		dir := filepath.Join(scratch, fmt.Sprintf("c%d", i))
 		_ = os.MkdirAll(dir, 0o755)
@@ -349,6 +351,10 @@ func histCampaign(prop, tier string, seed uint64, scratch string) *Result {
 		shipped := ""
 		if spec.Shipped && i < 2*len(shippedImages) {
 			shipped = shippedImages[i%len(shippedImages)]
+		}
+		if i >= n {
+			// cases that exposed a seeded change before: run again on every run, whatever the seed
+			cs, shipped = corpus[i-n].seed, corpus[i-n].shipped
 		}
 		c, vs, stats := runHistory(dir, cs, spec, shipped)
 		model, err := runDriver(c.Proto)
@@ -667,4 +673,36 @@ func capZero(ops []*Op) bool {
 		}
 	}
 	return false
+}
+
+// corpus of case seeds that exposed a defect or a seeded change in the past (corpus/<prop>.seeds:
+// one decimal seed per line, optionally followed by shipped=<path relative to test/images>).
+type corpusCase struct {
+	seed    uint64
+	shipped string
+}
+
+func corpusSeeds(prop string) []corpusCase {
+	b, err := os.ReadFile(filepath.Join(verifDir(), "corpus", prop+".seeds"))
+	if err != nil {
+		return nil
+	}
+	var out []corpusCase
+	for _, l := range strings.Split(string(b), "\n") {
+		f := strings.Fields(l)
+		if len(f) == 0 || strings.HasPrefix(f[0], "#") {
+			continue
+		}
+		var c corpusCase
+		if _, err := fmt.Sscan(f[0], &c.seed); err != nil {
+			continue
+		}
+		for _, x := range f[1:] {
+			if strings.HasPrefix(x, "shipped=") {
+				c.shipped = filepath.Join(repoDir(), "test", "images", x[8:])
+			}
+		}
+		out = append(out, c)
+	}
+	return out
 }
